@@ -36,8 +36,9 @@ class Contract:
     def __init__(
         self, key, src=None, params=None, defaults=None, cases=(), requires=None, ensures=(),
         canaries=(), loops=None, modifies=(), allocates=False, result=None, inline=False,
-        custom=None, is_property=False, label="proved", doc="", witness=None, local_kinds=None,
+        custom=None, is_property=False, label="proved", doc="", witness=None, local_kinds=None, slice=None,
     ):
+        self.slice = slice  # fn(function AST) -> list of statements: verify only this slice of the real function
         self.local_kinds = local_kinds or {}
         if witness is None:
             from vf.witness import generic_witness as witness
